@@ -451,6 +451,10 @@ def main():
                       lambda cs, _p=pname: run_sharded(model_exe, cs, tmo, env={"MSI_PROFILE": _p}),
                       lambda cs, _e=exe: run_sharded(_e, cs, tmo, mem_kb=mem_kb), pname, tier)
             res = mod.oracle(ctx)
+            extra = getattr(ctx, "extra_info", None)
+            if extra:
+                gen_info.update({("%s_%s" % (pname, k)): v for k, v in extra.items()})
+                evaluations += int(extra.get("fault_schedules", 0)) + int(extra.get("extra_evaluations", 0))
             for v in res:
                 v["profile"] = pname
                 cls = mod.classify_known(v) if hasattr(mod, "classify_known") else None
